@@ -171,6 +171,20 @@ def _chain_div_by_zero(a: Any, vals: list[Any]) -> bool:
     return False
 
 
+def max_abs(a: Any, vals: list[Any]) -> F:
+    """Largest exact magnitude over all sub-expressions (0 for missing ones): used to recognise float overflow."""
+    try:
+        r = evb(a, vals)
+    except IllConditioned:
+        r = BOT
+    m = F(0) if r is BOT else abs(r[0])
+    if a[0] == "un":
+        return max(m, max_abs(a[2], vals))
+    if a[0] == "bin":
+        return max(m, max_abs(a[2], vals), max_abs(a[3], vals))
+    return m
+
+
 def div_by_zero_somewhere(a: Any, vals: list[Any]) -> bool:
     """True iff some '/' node has an exactly-zero (non-missing) divisor."""
     if a[0] in ("leaf", "const"):
